@@ -274,6 +274,8 @@ func runC11(c *eng.Ctx) {
 	c.Rule("PROV", "tsdb/tblstore/metricsdata.metricReader.readSeriesData{query position from the field mapping}", func() { queryPositionFromMapping(c) })
 
 	// ---- shared with C03 ---------------------------------------------------------------------------------------------------------------
+	c.Rule("SYMMETRY", "aggregation.seriesAggregator.GetAggregator{target range = image of the source range}", func() { aggregatorTargetRange(c) })
+
 	c.Rule("ANCHOR", mfT+".FlushSeries{startAt}", func() { flusherAnchors(c) })
 	c.Rule("LAYOUT", "tsdb/tblstore/metricsdata{block footer}", func() { blockFooter(c) })
 	c.Rule("EXHAUSTIVE", "series/field{type tables}", func() { fieldTypeTables(c) })
@@ -549,4 +551,64 @@ func queryPositionFromMapping(c *eng.Ctx) {
 			"the query position passed to DownSampling is the index of the loop over readFieldIndexes, under its not-found test (never a constant)",
 			fmt.Sprintf("position %s (constant: %v, loop index: %v, loop over readFieldIndexes: %v, not-found tested: %v)", p.Desc(qi), isConst, fromMapping, overMapping, tested))
 	}
+}
+
+// aggregatorTargetRange: down-sampling emits a point of storage slot s of a family into query slot (baseSlot+s)/ratio;
+// the per-family aggregator must cover [(baseSlot+range.Start)/ratio, (baseSlot+range.End)/ratio] — both bounds the image
+// of the source bounds under that same mapping. (A bound derived from the length of the source range loses the last
+// bucket when the family does not start on a bucket boundary: FloatArray.SetValue ignores positions outside.)
+func aggregatorTargetRange(c *eng.Ctx) {
+	p := c.P
+	f := c.Fn("aggregation.seriesAggregator.GetAggregator")
+	mk := c.One(f, eng.CallTo("aggregation.NewFieldAggregator"), "NewFieldAggregator(spec, queryStart, targetStart, targetEnd)")
+	a := eng.CallArgs(mk.Instr.(*ssa.Call))
+	if len(a) != 4 {
+		c.Undecided("NewFieldAggregator does not take 4 arguments")
+	}
+	rng := c.One(f, eng.AnyCallTo("pkg/timeutil.Interval.CalcSlotRange"), "storageInterval.CalcSlotRange(familyTime, queryRange)")
+	rd := p.Desc(rng.Instr.(ssa.Value))
+	eng.WalkExpr(a[2], func(x ssa.Value) bool {
+		if d := p.Desc(x); strings.HasSuffix(d, ".Start") && eng.DependsOn(x, func(y ssa.Value) bool { return y == rng.Instr.(ssa.Value) }) && !strings.ContainsAny(d, "+-/*( ") {
+			rd = strings.TrimSuffix(d, ".Start")
+		}
+		return true
+	})
+	ds, de := p.Desc(a[2]), p.Desc(a[3])
+	c.Observe("GetAggregator: targetStart=" + ds + " targetEnd=" + de)
+	c.Check(strings.Contains(ds, rd+".Start") && !strings.Contains(ds, rd+".End"), "start-from-source-start", mk.Instr, f, "the first target slot is computed from the source range's Start", "targetStart = "+ds)
+	c.Check(strings.Contains(de, rd+".End") && !strings.Contains(de, rd+".Start"), "end-from-source-end-only", mk.Instr, f,
+		"the last target slot is computed from the source range's End alone (not from the range's length)", "targetEnd = "+de)
+	c.Check(strings.ReplaceAll(ds, rd+".Start", rd+".End") == de, "same-mapping-for-both-bounds", mk.Instr, f,
+		"both bounds are mapped by the same expression (base slot + source slot) / ratio", "targetStart = "+ds+" ; targetEnd = "+de)
+	// and that expression is the one the emitter uses
+	ratioOK, baseOK := false, false
+	eng.WalkExpr(a[3], func(x ssa.Value) bool {
+		if bo, ok := x.(*ssa.BinOp); ok {
+			if bo.Op == token.QUO && eng.DependsOnField(bo.Y, "aggregation.seriesAggregator.intervalRatio") && eng.DependsOn(bo.X, func(y ssa.Value) bool { return y == rng.Instr.(ssa.Value) }) {
+				ratioOK = true
+				if add, ok := eng.Unwrap(bo.X).(*ssa.BinOp); ok && add.Op == token.ADD {
+					for _, side := range []ssa.Value{add.X, add.Y} {
+						if !eng.DependsOn(side, func(y ssa.Value) bool { return y == rng.Instr.(ssa.Value) }) && len(f.Params) > 1 && eng.DependsOn(side, func(y ssa.Value) bool { return y == ssa.Value(f.Params[1]) }) {
+							baseOK = true
+						}
+					}
+				}
+			}
+		}
+		return true
+	})
+	c.Check(ratioOK && baseOK, "mapping-is-(base+slot)/ratio", mk.Instr, f,
+		"the mapping is (base slot of the family + source slot) / interval ratio, the expression aggregation.DownSampling emits with", "targetEnd = "+de)
+	ds2 := c.Fn("aggregation.DownSampling")
+	emit := false
+	for _, b := range eng.BlocksT(ds2) {
+		for _, in := range b.Instrs {
+			if bo, ok := in.(*ssa.BinOp); ok && bo.Op == token.QUO {
+				if add, ok := eng.Unwrap(bo.X).(*ssa.BinOp); ok && add.Op == token.ADD && (p.Desc(add.X) == "baseSlot" || p.Desc(add.Y) == "baseSlot") {
+					emit = true
+				}
+			}
+		}
+	}
+	c.Check(emit, "emitter-formula", nil, ds2, "aggregation.DownSampling maps a source slot with (baseSlot + slot) / ratio", "")
 }
